@@ -138,6 +138,9 @@ def run_property(pid, tier="quick", seed=0, only=None, verbose=False, do_bounded
             samples += res.samples[:2]
         # canaries
         cans = con.canaries if tier == "thorough" else con.canaries[:1]
+        if tier == "quick" and res.time_s > 45:
+            cans = []                       # a canary re-verifies the whole contract: for slow contracts only in the thorough tier
+            row["canaries"] = "thorough tier only (contract takes %.0f s)" % res.time_s
         for can in cans:
             label, old, new = can[:3]
             c = verify.run_canary(con, label, old, new, con.timeout_ms or min(timeout, 10000), can[3] if len(can) > 3 else None)
